@@ -85,7 +85,7 @@ def run(ctx):
     quick = ctx["tier"] == "quick"
     realfuzz.init()
     out = {"violations": [], "broken": [], "coverage": {}, "assumptions": [
-        "get_all_parameter_defaults() is exercised with the default (CAMB) transfer model only in the thorough tier"]}
+        "get_all_parameter_defaults() builds default objects (CAMB transfer model when camb is installed)"]}
     V = out["violations"]
     r = rng("c14")
     n_checks = 0
@@ -181,7 +181,7 @@ def run(ctx):
             n_checks += 1
             if sorted(pv) != kws:
                 viol(f"{cn}/ctor-keywords", f"{cn}: constructor keywords {sorted(set(kws) ^ set(pv))} differ from parameter_values keys")
-            if not quick or cn in ("Cosmology",):
+            if True:      # (classes are visited base first: Cosmology, Transfer, MassFunction, then the WDM classes — every class reports its own keywords)
                 try:
                     dflt = cls.get_all_parameter_defaults(recursive=False)
                     if sorted(dflt) != kws:
@@ -321,6 +321,11 @@ def run(ctx):
                 if k.endswith("_params"):
                     rej.append((f"non-dict {k}", lambda k=k: copy.deepcopy(obj).update(**{k: 3})))
                     rej.append((f"non-dict {k} (list)", lambda k=k: copy.deepcopy(obj).update(**{k: [("a", 1)]})))
+                    if k == "cosmo_params":
+                        # keys the cosmology model does not have (for a LambdaCDM-type model that includes the dark-energy equation-of-state names)
+                        for bad_ in ({"zz_unknown": 1}, {"w0": -0.9}, {"wa": 0.1}, {"Om0": 0.3, "wz": 0.0}):
+                            rej.append((f"unknown key in cosmo_params {bad_}", lambda bad_=bad_: _read_all(copy.deepcopy(obj), cosmo_params=dict(bad_))))
+                            rej.append((f"unknown key in cosmo_params {bad_} (ctor)", lambda bad_=bad_: (lambda o_: [getattr(o_, q_) for q_ in realfuzz.quantities(cls)])(cls(**dict(realfuzz.BASE[cn], cosmo_params=dict(bad_))))))
                     if k != "cosmo_params":
                         extra = {"alter_model": "Schneider12"} if k == "alter_params" else {}
                         rej.append((f"unknown key in {k}", lambda k=k, extra=extra: _read_all(copy.deepcopy(obj), **dict(extra, **{k: {"zz_unknown": 1}}))))
